@@ -560,6 +560,8 @@ enum Flips {
 struct Finding {
     rule: String,
     sig: String,
+    /// region of the reply the flipped bit lies in (flip findings)
+    region: Option<String>,
     case: Value,
     expected: Value,
     observed: Value,
@@ -580,7 +582,10 @@ impl Probe {
         *self.counts.entry(name.to_string()).or_insert(0) += 1;
     }
     fn find(&mut self, rule: &str, sig: String, case: Value, expected: Value, observed: Value) {
-        self.findings.push(Finding { rule: rule.to_string(), sig, case, expected, observed });
+        self.findings.push(Finding { rule: rule.to_string(), sig, region: None, case, expected, observed });
+    }
+    fn find_at(&mut self, region: &str, rule: &str, sig: String, case: Value, expected: Value, observed: Value) {
+        self.findings.push(Finding { rule: rule.to_string(), sig, region: Some(region.to_string()), case, expected, observed });
     }
 }
 
@@ -735,12 +740,14 @@ fn reply_probe(w: &mut World, unsigned: &[u8], key_idx: usize, time: u64, now: u
                     Ok(true) => {
                         let mut c = mk(w, &signed, &format!("reply-bitflip@{region}"), "reply");
                         c["reply"] = json!(hex(&r));
-                        p.find("reply", format!("forged-reply-accepted:byte-edit@{region}"), c, json!({"reftsig": format!("{v:?}")}), json!("TSigVerifier::verify returned Ok"));
+                        p.find_at(&region, "reply", format!("forged-reply-accepted:byte-edit@{region}"), c, json!({"reftsig": format!("{v:?}")}), json!("TSigVerifier::verify returned Ok"));
                     }
                     Err(pn) => {
                         let mut c = mk(w, &signed, &format!("reply-bitflip@{region}"), "reply");
                         c["reply"] = json!(hex(&r));
-                        p.find("panic", format!("{}:verify-flipped-reply@{region}", pn.site()), c, json!("no panic"), json!({"message": pn.message, "location": pn.location}));
+                        // one panic site is reached from flips in many regions (any edit that re-frames
+                        // the records): the discriminator is the panic itself, not where the bit was
+                        p.find_at(&region, "panic", format!("{}:verify-flipped-reply:{}", pn.site(), slug(&pn.message)), c, json!("no panic"), json!({"message": pn.message, "location": pn.location}));
                     }
                 }
             } else {
@@ -751,12 +758,17 @@ fn reply_probe(w: &mut World, unsigned: &[u8], key_idx: usize, time: u64, now: u
     p
 }
 
+fn slug(msg: &str) -> String {
+    let s: String = msg.chars().take(48).map(|c| if c.is_ascii_alphanumeric() || c == '_' || c == '.' { c } else { '-' }).collect();
+    s.trim_matches('-').to_string()
+}
+
 /// (rule, sig, feature set) -> responsible feature(s)
 type BlameCache = BTreeMap<(String, String, String), String>;
 
 /// Smallest request feature that reproduces the alarm (rule, sig): none (the default-shaped twin
 /// raises it too), one single feature, or the whole combination.
-fn blame(cache: &mut BlameCache, w: &mut World, spec: &Spec, key_idx: usize, time: u64, now: u64, rule: &str, sig: &str) -> String {
+fn blame(cache: &mut BlameCache, w: &mut World, spec: &Spec, key_idx: usize, time: u64, now: u64, rule: &str, sig: &str, region: Option<&str>) -> String {
     let feats = spec.features();
     if feats.is_empty() {
         return String::new();
@@ -765,9 +777,9 @@ fn blame(cache: &mut BlameCache, w: &mut World, spec: &Spec, key_idx: usize, tim
     if let Some(b) = cache.get(&ck) {
         return b.clone();
     }
-    let flips = match sig.split_once('@') {
-        Some((head, region)) if head.starts_with("forged-reply-accepted") || head.contains("verify-flipped-reply") => Flips::Region(region.to_string()),
-        _ => Flips::None,
+    let flips = match region {
+        Some(r) => Flips::Region(r.to_string()),
+        None => Flips::None,
     };
     let mut raised = |keep: &[&str]| -> bool {
         let twin = spec.only(keep).wire();
@@ -797,7 +809,7 @@ fn check_reply(rep: &mut Reporter, cache: &mut BlameCache, w: &mut World, unsign
     let spec = Spec::parse(unsigned).ok();
     for f in p.findings {
         let b = match &spec {
-            Some(s) => blame(cache, w, s, key_idx, time, now, &f.rule, &f.sig),
+            Some(s) => blame(cache, w, s, key_idx, time, now, &f.rule, &f.sig, f.region.as_deref()),
             None => String::new(),
         };
         let sig = if b.is_empty() { f.sig.clone() } else { format!("{}:req={}", f.sig, b) };
